@@ -75,8 +75,27 @@ ClassOk(want, r) ==
     [] want = "pzero" -> r.c = "zero"
     [] OTHER -> r.c = want
 
+(* Rounding family where the unit in the last place of the argument is 1 or 1/2, and just below 1/2.  d2 = 2 (r - x), *)
+(* exact in floating point there.  int: integer-valued argument; inthalf: integer + 1/2; belowhalf: the largest value < 1/2 *)
+ExactRule(op, cls, neg, d2, r) ==
+  CASE cls = "int" -> IF op = "fract" THEN Zeroish(r.c) ELSE d2 = 0
+    [] cls = "inthalf" ->
+         (CASE op = "round" -> d2 = (IF neg THEN -1 ELSE 1)            \* ties away from zero
+            [] op = "floor" -> d2 = -1
+            [] op = "ceil"  -> d2 = 1
+            [] op = "trunc" -> d2 = (IF neg THEN 1 ELSE -1)
+            [] op = "fract" -> r.c = "fin" /\ r.v = (IF neg THEN -(S \div 2) ELSE S \div 2)
+            [] OTHER -> FALSE)
+    [] cls = "belowhalf" ->
+         (CASE op \in {"round", "trunc"} -> Zeroish(r.c)
+            [] op = "floor" -> IF neg THEN r.c = "fin" /\ r.v = -S ELSE Zeroish(r.c)
+            [] op = "ceil"  -> IF neg THEN Zeroish(r.c) ELSE r.c = "fin" /\ r.v = S
+            [] op = "fract" -> d2 = 0
+            [] OTHER -> FALSE)
+    [] OTHER -> FALSE
 Judge(r) ==
   IF r.r.c = "panic" THEN "bad:panic"
+  ELSE IF "exact" \in DOMAIN r THEN (IF ExactRule(r.opa, r.exact, r.neg, r.d2, r.r) THEN "ok" ELSE "bad:rounding-family-exact")
   ELSE IF "special" \in DOMAIN r
        THEN (IF ClassOk(IF r.ar = 1 THEN Sp1(r.opa, r.special) ELSE Sp2(r.opa, r.special, r.special2), r.r) THEN "ok" ELSE "bad:special-class")
   ELSE IF r.ar = 0 THEN Const0(r.opa, r.r, r.aux)
